@@ -1044,19 +1044,6 @@ theorem C05_pinned_append :
 
 /-! ## Histories around serialisation: `to_json` has no memory -/
 
-/-- A history: serialise the current value with some options, or continue with the value a
-mutation (at any depth) has produced. -/
-inductive HistOp where
-  | ser (o : JOpts)
-  | put (t : Tree)
-
-/-- SPEC of a history: every serialisation is `to_json` of the value *as it is at that moment*,
-whatever was serialised, queried or memoised before. -/
-def histRun (env : ClassEnv) : Tree → List HistOp → List (Tree × JV)
-  | _, [] => []
-  | t, .ser o :: ops => (t, toJsonO o env t) :: histRun env t ops
-  | _, .put t' :: ops => histRun env t' ops
-
 /-- WHAT IS SAVED IS WHAT IS LOADED, at every point of every history: each output of the history
 loads back (with `allow_partial`, as `pg.load` does) to the value that was current when it was
 written — provided that value is well formed and encodable. The implementation is compared with
